@@ -3,6 +3,9 @@ lean/PsyVerif/Model/Frontend.lean `Src`) of random programs.  The AST is never d
 from fparser2/PSyIR."""
 
 INT, REAL = "integer", "real"
+# does the reader compare construct names case-sensitively (pinned behaviour, a known finding)?  Set by the
+# harness from a probe of the live code, so that the expected Loop-vs-CodeBlock structure follows the code.
+NAME_CASE_SENSITIVE = True
 
 
 class Arr:
@@ -56,6 +59,9 @@ class Gen:
             self.arrs[nm] = Arr(nm, lo, lo + ext - 1, typ)
             names.id(nm)
         self.tag = 0
+        self.label = 0
+        self.nconstruct = 0
+        self.name_case_sensitive = NAME_CASE_SENSITIVE
         self.tagtext = {}
         self.feats = set()
         self.clean = True
@@ -512,9 +518,199 @@ class Gen:
         live2 = dict(live)
         live2[v] = (min(lo, hi), max(lo, hi))
         blines, bast = self.block(live2, r.randint(1, 3), ind + "  ", depth + 1)
+        if r.random() < 0.2:
+            jl, ja = self.jump(live2, ind + "  ", r.choice(["exit", "cycle"]))
+            if r.random() < 0.5:
+                blines, bast = jl + blines, ["seqs", ja] + bast[1:]
+            else:
+                blines, bast = blines + jl, bast + [ja]
         head = f"{ind}do {v} = {lo}, {hi}" + ("" if st is None else f", {st}")
         stast = "none" if st is None else lit_ast(st)
         return [head] + blines + [f"{ind}end do"], ["do", self.id(v), ["lit", lo], ["lit", hi], stast, bast]
+
+    # ------------------------------------------------------------------ unsupported statements (CodeBlocks)
+    def newtag(self, text):
+        self.tag += 1
+        self.tagtext[self.tag] = squash(text)
+        return self.tag
+
+    def jcond(self, live):
+        """short condition, preferably on a loop variable"""
+        r = self.r
+        if live and r.random() < 0.7:
+            v = r.choice(list(live))
+            mn, mx = live[v]
+            c = r.randint(mn, mx)
+            op, nm = r.choice([("==", "eq"), (">", "gt"), ("<", "lt"), ("/=", "ne")])
+            return f"{v} {op} {c}", ["bin", nm, ["var", self.id(v)], ["lit", c]]
+        return self.cond(live, 1)
+
+    def jump(self, live, ind, kind, name=None):
+        """`if (c) exit|cycle [name]` -> IfBlock holding a CodeBlock"""
+        stmt = kind + (f" {name}" if name else "")
+        ct, ca = self.jcond(live)
+        tag = self.newtag(stmt)
+        self.feats.add(kind + ("-named" if name else ""))
+        if self.r.random() < 0.7:
+            return [f"{ind}if ({ct}) {stmt}"], ["ite", ca, ["cb", tag], ["skip"]]
+        lines, ast = self.assign(live, ind + "  ")
+        return [f"{ind}if ({ct}) then"] + lines + [f"{ind}  {stmt}", f"{ind}end if"], \
+            ["ite", ca, ["seqs", ast, ["cb", tag]], ["skip"]]
+
+    def loop_bounds(self):
+        r = self.r
+        kind = r.random()
+        if kind < 0.6:
+            return r.randint(0, 2), r.randint(3, 6), None
+        if kind < 0.75:
+            return r.randint(0, 2), r.randint(3, 6), 2
+        if kind < 0.92:
+            return r.randint(4, 6), r.randint(0, 2), -1
+        return r.randint(3, 5), r.randint(0, 2), None          # zero trip
+
+    def jloop(self, live, ind, depth):
+        """DO construct (named or not) with EXIT / CYCLE, possibly from a nested loop.  The reader keeps a named DO
+        whose name is referred to inside it as ONE CodeBlock; otherwise it builds a Loop (the name is dropped) and
+        every EXIT/CYCLE statement becomes a CodeBlock."""
+        r = self.r
+        free = [v for v in self.loopvars if v not in live]
+        v = free[0]
+        lo, hi, st = self.loop_bounds()
+        self.nconstruct += 1
+        named = r.random() < 0.7
+        name = r.choice(["rows", "outer", "scan", "lp", "Sweep"]) + str(self.nconstruct) if named else None
+        self.feats.add("do-named" if named else "do-with-jump")
+        live2 = dict(live)
+        live2[v] = (min(lo, hi), max(lo, hi))
+        i2 = ind + "  "
+        spelled = []          # spellings of the construct name used by EXIT/CYCLE inside
+
+        def refname():
+            if not named or r.random() < 0.35:
+                return None
+            sp = name
+            if r.random() < 0.07:
+                sp = name.upper() if name.upper() != name else name.lower()
+                self.feats.add("known:C01-construct-name-case")
+            spelled.append(sp)
+            return sp
+        parts = []            # (lines, ast)
+        for _ in range(r.randint(1, 2)):
+            parts.append(self.block(live2, 1, i2, depth + 1))
+        for _ in range(r.randint(1, 2)):
+            parts.insert(r.randint(0, len(parts)), self.jump(live2, i2, r.choice(["exit", "cycle"]), refname()))
+        if len(free) > 1 and r.random() < 0.5:
+            # nested loop with a jump that may refer to the outer construct
+            w = free[1]
+            lo2, hi2, st2 = self.loop_bounds()
+            live3 = dict(live2)
+            live3[w] = (min(lo2, hi2), max(lo2, hi2))
+            i3 = i2 + "  "
+            inner = [self.jump(live3, i3, r.choice(["exit", "cycle"]), refname()), self.block(live3, 1, i3, depth + 2)]
+            r.shuffle(inner)
+            il = [f"{i2}do {w} = {lo2}, {hi2}" + ("" if st2 is None else f", {st2}")]
+            ia = []
+            for ls, a in inner:
+                il += ls
+                ia.append(a)
+            il.append(f"{i2}end do")
+            parts.insert(r.randint(0, len(parts)), (il, ["do", self.id(w), ["lit", lo2], ["lit", hi2],
+                                                         "none" if st2 is None else lit_ast(st2), ["seqs"] + ia]))
+            self.feats.add("jump-from-nested-loop")
+        head = (f"{name}: " if named else "") + f"do {v} = {lo}, {hi}" + ("" if st is None else f", {st}")
+        lines = [ind + head]
+        asts = []
+        for ls, a in parts:
+            lines += ls
+            asts.append(a)
+        lines.append(f"{ind}end do" + (f" {name}" if named else ""))
+        if self.name_case_sensitive:
+            refd = named and name in spelled            # mirrors the reader's (case-sensitive) name check
+        else:
+            refd = named and name.lower() in [x.lower() for x in spelled]
+        if refd:
+            self.feats.add("do-named-refused")
+            return lines, ["cb", self.newtag("".join(lines))]
+        return lines, ["do", self.id(v), ["lit", lo], ["lit", hi], "none" if st is None else lit_ast(st), ["seqs"] + asts]
+
+    def refused_template(self, live, ind):
+        """named constructs kept verbatim as one CodeBlock: counted DO / DO WHILE whose name is used by CYCLE/EXIT
+        from a nested DO WHILE, label-DO"""
+        r = self.r
+        free = [v for v in self.loopvars if v not in live]
+        v, w = free[0], free[1]
+        self.nconstruct += 1
+        nm = r.choice(["scan", "Rows", "blk"]) + str(self.nconstruct)
+        a, c = r.choice(self.iscal), r.randint(2, 9)
+        kind = r.choice(["cycle", "exit"])
+        x = r.random()
+        if x < 0.4:
+            lines = [f"{nm}: do {v} = {r.randint(3, 6)}, 1, -1", f"  {w} = 0", f"  do while ({w} < {v})",
+                     f"    {w} = {w} + 1", f"    {a} = {a} + {w}", f"    if ({a} > {c}) {kind} {nm}", "  end do",
+                     f"  {a} = {a} - 1", f"end do {nm}"]
+            self.feats.add("do-named-refused")
+        elif x < 0.7:
+            lines = [f"{w} = 0", f"{nm}: do while ({w} < {r.randint(3, 6)})", f"  {w} = {w} + 1",
+                     f"  if (mod({w}, 2) == 0) cycle {nm}", f"  do {v} = 1, 3", f"    if ({v} > {w}) {kind} {nm}",
+                     f"    {a} = {a} + {v}", "  end do", f"end do {nm}"]
+            self.feats.add("do-while-named-refused")
+        else:
+            self.label += 10
+            lines = [f"do {self.label} {v} = 1, {r.randint(2, 5)}", f"  {a} = {a} + {v} * {c}",
+                     f"{self.label} continue"]
+            self.feats.add("label-do")
+        if lines[0].startswith(f"{w} = 0"):
+            first = [f"{ind}{lines[0]}"]
+            rest = lines[1:]
+            asts = [["assign", self.id(w), ["lit", 0]], ["cb", self.newtag("".join(rest))]]
+            return first + [ind + ln for ln in rest], ["seqs"] + asts
+        return [ind + ln for ln in lines], ["cb", self.newtag("".join(lines))]
+
+    def goto_block(self, live, ind, depth):
+        """forward GOTO to a labelled CONTINUE in the same block"""
+        self.label += 10
+        lab = self.label
+        ct, ca = self.jcond(live)
+        t1 = self.newtag(f"goto {lab}")
+        ml, ma = self.block(live, self.r.randint(1, 2), ind, depth + 1)
+        t2 = self.newtag(f"{lab} continue")
+        self.feats.add("goto")
+        return [f"{ind}if ({ct}) goto {lab}"] + ml + [f"{ind}{lab} continue"], \
+            ["seqs", ["ite", ca, ["cb", t1], ["skip"]], ma, ["cb", t2]]
+
+    def while_loop(self, live, ind, depth):
+        """DO WHILE / DO forever with EXIT (a WhileLoop in the PSyIR: not in the model, the routine is only checked
+        end to end with gfortran)"""
+        r = self.r
+        free = [v for v in self.loopvars if v not in live]
+        v = free[0]
+        n = r.randint(2, 5)
+        live2 = dict(live)
+        live2[v] = (0, n + 1)
+        self.modelled = False
+        self.feats.add("do-while")
+        i2 = ind + "  "
+        bl, _ = self.block(live2, r.randint(1, 2), i2, depth + 1)
+        jl, _ = self.jump(live2, i2, r.choice(["exit", "cycle"]))
+        if r.random() < 0.6:
+            return [f"{ind}{v} = 0", f"{ind}do while ({v} < {n})", f"{i2}{v} = {v} + 1"] + jl + bl + [f"{ind}end do"], ["skip"]
+        return [f"{ind}{v} = 0", f"{ind}do", f"{i2}{v} = {v} + 1", f"{i2}if ({v} > {n}) exit"] + jl + bl + [f"{ind}end do"], ["skip"]
+
+    def unsupported(self, live, ind, depth):
+        r = self.r
+        free = [v for v in self.loopvars if v not in live]
+        x = r.random()
+        if x < 0.45 and free and depth < 2:
+            return self.jloop(live, ind, depth)
+        if x < 0.65 and len(free) >= 2:
+            return self.refused_template(live, ind)
+        if x < 0.85:
+            return self.goto_block(live, ind, depth)
+        if x < 0.93 and free and depth < 2:
+            return self.while_loop(live, ind, depth)
+        if live:
+            return self.jump(live, ind, r.choice(["exit", "cycle"]))
+        return self.goto_block(live, ind, depth)
 
     def ifstmt(self, live, ind, depth):
         r = self.r
@@ -523,21 +719,31 @@ class Gen:
         if r.random() < 0.2:
             lines, ast = self.assign(live, "")
             return [f"{ind}if ({ct}) {lines[0]}"], ["ite", ca, ast, ["skip"]]
+        nm = ""
+        if r.random() < 0.25:
+            self.nconstruct += 1
+            nm = r.choice(["chk", "Test", "sel"]) + str(self.nconstruct)
+            self.feats.add("if-named")
         tl, ta = self.block(live, r.choice([1, 2]), ind + "  ", depth + 1)
-        lines = [f"{ind}if ({ct}) then"] + tl
+        if nm and r.random() < 0.08:
+            # EXIT from a named IF: the reader drops the construct name (known finding)
+            jl, ja = self.jump(live, ind + "  ", "exit", nm)
+            tl, ta = jl + tl, ["seqs", ja] + ta[1:]
+            self.feats.add("known:C01-named-if-exit")
+        lines = [f"{ind}{nm + ': ' if nm else ''}if ({ct}) then"] + tl
         elifs = []
         for _ in range(r.choice([0, 0, 1, 2])):
             c2t, c2a = self.cond(live)
             bl, ba = self.block(live, 1, ind + "  ", depth + 1)
-            lines += [f"{ind}else if ({c2t}) then"] + bl
+            lines += [f"{ind}else if ({c2t}) then{' ' + nm if nm else ''}"] + bl
             elifs.append((c2a, ba))
             self.feats.add("else-if")
         els = ["skip"]
         if r.random() < 0.5:
             el, ea = self.block(live, 1, ind + "  ", depth + 1)
-            lines += [f"{ind}else"] + el
+            lines += [f"{ind}else{' ' + nm if nm else ''}"] + el
             els = ea
-        lines.append(f"{ind}end if")
+        lines.append(f"{ind}end if{' ' + nm if nm else ''}")
         for c2a, ba in reversed(elifs):
             els = ["ite", c2a, ba, els]
         return lines, ["ite", ca, ta, els]
@@ -610,6 +816,8 @@ class Gen:
                 x = 0.45
             if self.focus == "select" and x < 0.5:
                 x = 0.25
+            if self.focus == "unsupported" and x < 0.45:
+                x = 0.6
             if x < 0.14 and depth < 2 and len(live) < 3:
                 ls, a = self.loop(live, ind, depth)
             elif x < 0.24 and depth < 3:
@@ -620,6 +828,8 @@ class Gen:
                 ls, a, _ = self.where(ind)
             elif x < 0.57:
                 ls, a, _ = self.arrassign(ind)
+            elif x < 0.67 and depth < 3:
+                ls, a = self.unsupported(live, ind, depth)
             else:
                 ls, a = self.assign(live, ind)
             lines += ls
@@ -650,12 +860,13 @@ class Gen:
         mod.append("  end subroutine init")
         for n in range(nrout):
             self.feats = set()
+            self.modelled = True
             lines, ast = self.block({}, r.randint(2, 5), "    ", 0)
             if r.random() < 0.45:
                 tl, ta = self.truth_block("    ")
                 lines, ast = tl + lines, ["seqs", ta] + ast[1:]
             mod += [f"  subroutine r{n}()", "    integer :: i, j, k"] + lines + [f"  end subroutine r{n}"]
-            p.routines.append(Routine(f"r{n}", "\n".join(lines), ast, True, set(self.feats)))
+            p.routines.append(Routine(f"r{n}", "\n".join(lines), ast, self.modelled, set(self.feats)))
             p.feats |= self.feats
         mod.append("end module m")
         main = ["program p", "  use m", "  implicit none", "  call init()"]
